@@ -98,12 +98,12 @@ fn case_strategy(tier: Tier, ex: Excl, wx: crate::props::c02::WhereExcl) -> Boxe
             let ev = (0..n_ctx, -3i64..5, prop::sample::select(vec![-2.5f64, -0.5, 0.0, 0.25, 1.5, 2.0, 10.5]), prop::sample::select(vec!["a", "b", "B", "ab", "zz", "é"]), 0i64..6, prop::option::weighted(0.7, -2i64..4), prop::sample::select(vec![0u64, 1, 2, 3, 4_000_000_000, i64::MAX as u64]))
                 .prop_map(|(ctx, x, f, s, t, o, u)| Ev { ty: 0, ctx, vals: vec![json!(x), json!(f), json!(s), json!(1_700_000_000i64 + t * 1800), o.map(|v| json!(v)).unwrap_or(Value::Null), json!(u)] });
             let op = prop_oneof![30 => ev.prop_map(Op::Store), 3 => (0u32..5).prop_map(Op::Clock), 2 => Just(Op::Flush), 2 => Just(Op::Barrier), 2 => (1u8..=2).prop_map(Op::Compact)];
-            let ops = prop::collection::vec(op, 8..=tier.pick(50, 90));
+            let ops = prop::collection::vec(op, 8..=tier.pick(70, 90));
             let tail = prop::collection::vec(prop_oneof![3 => Just(Op::Flush), 2 => (1u8..=2).prop_map(Op::Compact), 2 => Just(if ex.no_restart { Op::Barrier } else { Op::Restart })], 1..=2);
             let fields: Vec<&'static str> = SORT_FIELDS.iter().enumerate().filter(|(i, _)| !ex.order_by[*i]).map(|(_, f)| *f).collect();
             let wh = where_strategy(&TypeDef { name: "ev".into(), fields: td.fields.iter().filter(|f| f.name == "x").cloned().collect() }, 1);
             let order = if fields.is_empty() { Just(None).boxed() } else { opt_w(0.8, (prop::sample::select(fields), any::<bool>()).prop_map(|(f, d)| (f.to_string(), d))) };
-            let q = (order, opt_w(0.7, prop_oneof![Just(0u32), Just(1), 2u32..6, 6u32..40, Just(1000)]), opt_w(if ex.offset { 0.0 } else { 0.4 }, prop_oneof![Just(0u32), Just(1), 2u32..6, 6u32..40]), opt_w(0.3, wh), opt_w(0.25, 0..n_ctx), any::<bool>())
+            let q = (order, opt_w(0.7, prop_oneof![1 => Just(0u32), 3 => Just(1u32), 3 => 2u32..6, 2 => 6u32..40, 1 => Just(1000u32)]), opt_w(if ex.offset { 0.0 } else { 0.4 }, prop_oneof![Just(0u32), Just(1), 2u32..6, 6u32..40]), opt_w(0.3, wh), opt_w(0.25, 0..n_ctx), any::<bool>())
                 .prop_map(move |(order, limit, offset, wh, ctx, ret)| {
                     // open finding: the ordered top-k zone pre-selection ignores WHERE and FOR, so ORDER BY + LIMIT is only
                     // combined with them when the finding is closed (without them it is explored since fix 7e1b1f4); the string
@@ -114,6 +114,21 @@ fn case_strategy(tier: Tier, ex: Excl, wx: crate::props::c02::WhereExcl) -> Boxe
                     let offset = if ex.ordered_offset && order.is_some() && limit.is_some() { None } else { offset };
                     OQ { order, limit, offset, wh, ctx, ret }
                 });
+            // late arrivals: up to two events in contexts of their own, stored after everything else (so they sit in memory at
+            // the first observation), each with a sort key beyond the shared value domain on one side - the top row of an
+            // ordered query then lives only in a memtable, possibly of a shard whose segments hold none of the top rows
+            let late = prop::collection::vec((0usize..3, any::<bool>()), 0..=2).prop_map(move |v| {
+                v.into_iter()
+                    .map(|(c, hi)| {
+                        let (x, f, t, o, u) = if hi { (9i64, 99.5f64, 40i64, 9i64, 5_000_000_000u64) } else { (-9, -99.5, -40, -9, 0) };
+                        Op::Store(Ev { ty: 0, ctx: n_ctx + c, vals: vec![json!(x), json!(f), json!("m"), json!(1_700_000_000i64 + t * 1800), json!(o), json!(u)] })
+                    })
+                    .collect::<Vec<Op>>()
+            });
+            let ops = (ops, late).prop_map(|(mut a, b)| {
+                a.extend(b);
+                a
+            });
             (Just(cfg), Just(td), Just(n_ctx), ops, tail, prop::collection::vec(q, 6..=tier.pick(14, 24)))
         })
         .prop_map(move |(cfg, td, n_ctx, ops, tail, mut queries)| {
@@ -187,11 +202,12 @@ fn run_case(c: &Case, rep: &mut CaseReport) -> Verdict {
                 continue;
             }
             let compacted = layout.iter().any(|l| l == "layout:l1" || l == "layout:l2" || l == "layout:l3");
-            if ex.limit_with_order && q.order.is_some() && q.limit.is_some() && (mixed || compacted) && !sub_region() {
-                // same open finding: with rows in memory and in segments the zone plan only knows the segments, and the
-                // ordered answer with a LIMIT depends on which flow delivers first (flaky wrong slice); over compacted
-                // segments the plan assumes event_per_zone rows per zone and misses the top zone (ORDER BY t DESC LIMIT 1
-                // over L0 + L2 returned the second-largest key, thorough tier)
+            if ex.limit_with_order && q.order.is_some() && q.limit.is_some() && compacted && !sub_region() {
+                // same open finding: over compacted segments the plan assumes event_per_zone rows per zone and misses the
+                // top zone (ORDER BY t DESC LIMIT 1 over L0 + L2 returned the second-largest key, thorough tier). Rows in
+                // memory and in segments at once were excluded here too (a flaky wrong slice, 1 of 10 seeds) until the
+                // repairs 00f546b / a541073 (column order and width of the flows under one schema): silent since in 12
+                // seeds of the sub-region experiment and in the thorough tier, so that layout is judged again
                 rep.excluded_known += 1;
                 continue;
             }
